@@ -45,6 +45,8 @@ def gen(rng, tier):
         ps.append(p)
     rep = [G.replace_pda(rng) for _ in range(12 if quick else 150)]
     cases = [{'P': p, 'n': 3, 'cfg': len(p['Sigma']) <= 2 and i % 3 == 0, 'deep': False} for i, p in enumerate(rep)]
+    cases += [{'P': G.loop_exit_pda(rng), 'n': 4, 'cfg': True, 'deep': False} for _ in range(3 if quick else 30)]
+    cases += [{'P': G.drain_pda(rng), 'n': 4, 'cfg': i == 0, 'deep': False} for i in range(4 if quick else 40)]
     for i, p in enumerate(ps):
         small = len(p['Q']) <= 2 and len(p['delta']) <= 3
         tiny = len(p['Q']) == 1 and len(p['delta']) <= 2 and len(p['F']) == 1 and all((t[2] == p['eps']) != (t[4] == p['eps']) for t in p['delta'])
@@ -87,6 +89,11 @@ def observe(c):
                 r = safe(f, P)
                 res = (conv.pda_case(r[1]) if name != 'cfg' else conv.cfg_case(r[1])) if ok(r) else None
             out[name] = {'res': res, 'states': list(states), 'symbols': list(symbols), 'unchanged': conv.pda_case(P) == before, 'err': None if ok(r) else r[1]}
+            if name == 'cfg' and ok(r):
+                # the bounded language of the returned grammar, enumerated by the library (judged against the model PDA's language)
+                from gambatools.cfg_algorithms import cfg_words_up_to_n
+                w = safe(cfg_words_up_to_n, r[1], c['n'], timeout=40)
+                out[name]['words'] = sorted(w[1]) if ok(w) else None
         run('one', PA.pda_to_one_accepting_state_in_place, inplace=True)
         run('pp', PA.pda_to_push_pop)
         run('es', PA.pda_to_accept_on_empty_stack)
@@ -153,7 +160,10 @@ def encode(c, o):
     # the concrete naming policy of fresh_state (Model/FreshName.v) on the calls the implementation made
     fresh = ['judge_fresh_state %s %s %s' % (SX.toks(Q0), SX.tok(hint), SX.opt_codes(r)) for Q0, hint, r in o.get('fresh_calls', [])
              if all(SX.codes(x) is not None for x in Q0 + [hint] + ([r] if r is not None else []))]
-    return 'worst_code [%s]' % '; '.join([main] + fresh)
+    extra = []
+    if o.get('cfg') and o['cfg'].get('words') is not None and all(ch in p['Sigma'] for w in o['cfg']['words'] for ch in w):
+        extra.append('judge_cfg_words_of_pda %s %d (Some %s)' % (lit, c['n'], L.lst(L.nats(f(ch) for ch in w) for w in o['cfg']['words'])))
+    return 'worst_code [%s]' % '; '.join([main] + fresh + extra)
 
 
 def explain(c):
